@@ -192,7 +192,7 @@ def explore(job):
                     base_fs._apply(op)
                 if torn:
                     op = jj[k]
-                    base_fs._apply(("write", op[1], op[2], op[3][:torn]))
+                    base_fs._apply(("write", op[1], op[2], op[3][:torn], op[4]))
                 base_fs.record = True
                 fs = base_fs
             if idx < len(only) - 1:
@@ -239,17 +239,19 @@ def explore(job):
                     fsb._apply(op)
                 if t2:
                     op = j2[k2]
-                    fsb._apply(("write", op[1], op[2], op[3][:t2]))
+                    fsb._apply(("write", op[1], op[2], op[3][:t2], op[4]))
                 fsb.record = True
                 out["chain_cuts"] += 1
                 sig2, det2 = resume_on(base, fsb, refd)
                 if sig2 is not None:
                     w2 = norm(crash.window(j2, k2, t2, ROOT))
                     out["fail"].append({"sig": dict(sig2, window=w2, strategy=base["strategy"], chain=True,
+                                                    failure=sig2["oracle"] + (":" + sig2["exc"] if "exc" in sig2 else ""),
                                                     phase=phase(j2, k2, t2, base["strategy"])),
                                         "detail": det2, "chain": [[k, torn], [k2, t2]], "nit": base["nit"]})
         if sig is not None:
             out["fail"].append({"sig": dict(sig, window=w, strategy=base["strategy"],
+                                            failure=sig["oracle"] + (":" + sig["exc"] if "exc" in sig else ""),
                                             phase=phase(j, k, torn, base["strategy"])), "detail": detail,
                                 "chain": [[k, torn]], "nit": base["nit"]})
     out["unique_states"] = len(seen)
